@@ -7,6 +7,7 @@ import LianVerif.Drv.PathStore
 import LianVerif.Drv.Lru
 import LianVerif.Drv.Loader
 import LianVerif.Drv.MapLoader
+import LianVerif.Drv.Cfg
 
 open Lean LianVerif.Drv
 
@@ -17,6 +18,8 @@ def dispatch (j : Json) : Except String Json := do
   | "lru" => LianVerif.Drv.Lru.handle j
   | "loader" => LianVerif.Drv.Loader.handle j
   | "maploader" => LianVerif.Drv.MapLoader.handle j
+  | "cfg" => LianVerif.Drv.Cfg.handleCfg j
+  | "cfgcheck" => LianVerif.Drv.Cfg.handleCheck j
   | _ => throw s!"unknown model {m}"
 
 partial def loop (hin hout : IO.FS.Stream) : IO Unit := do
